@@ -129,7 +129,7 @@ inductive P (α : Type)
   | ok (a : α)
   | err
   | unsupported
-deriving Repr
+deriving Repr, DecidableEq
 
 /-- one central directory record (zip.go:366-407); returns the rest of the frame -/
 def zipCD (bs : Bytes) : P (ZipCD × Bytes) :=
